@@ -159,7 +159,7 @@ class Canon(object):
                 if e < 2:
                     continue
                 kind = _KIND.get(b)
-                if kind not in ('sqrtc', 'sqrtb'):
+                if kind not in ('sqrtc', 'sqrtb', 'abs'):
                     continue
                 if d is num and side == 0:
                     num = dict(num)
@@ -176,6 +176,8 @@ class Canon(object):
                 if kind == 'sqrtc':
                     coeff = coeff * (inner ** q if side == 0
                                      else Fraction(1) / inner ** q)
+                elif kind == 'abs':
+                    d[inner] = d.get(inner, 0) + 2 * q
                 else:
                     d[inner] = d.get(inner, 0) + q
         return num, den, coeff
@@ -219,6 +221,14 @@ class Canon(object):
         for side, dd in ((0, n), (1, d)):
             for b, e in dd.items():
                 if b not in self.pos:
+                    if e % 2 == 0 and b in self.nz:
+                        ab = intern_key(('abs', b))
+                        self.pos.add(ab)
+                        self.nz.add(ab)
+                        out = self._mul(out, self.term(
+                            {ab: e // 2} if side == 0 else {},
+                            {ab: e // 2} if side == 1 else {}, Fraction(1)))
+                        continue
                     return None
                 q, r = divmod(e, 2)
                 nn, dn = {}, {}
@@ -267,10 +277,26 @@ class Canon(object):
         for k, q in l.coef.items():
             n, d = _parts(k)
             if len(n) == 1 and not d and list(n.values()) == [1] and \
-                    _KIND.get(list(n)[0]) == 'logb' and q.denominator == 1:
+                    _KIND.get(list(n)[0]) in ('logb', 'logc') and \
+                    q.denominator in (1, 2):
+                kind = _KIND[list(n)[0]]
                 inner = _KEY[list(n)[0]][1]
                 tgt = num if q > 0 else den
-                tgt[inner] = tgt.get(inner, 0) + abs(int(q))
+                if kind == 'logb':
+                    if q.denominator == 1:
+                        tgt[inner] = tgt.get(inner, 0) + abs(int(q))
+                    else:
+                        sb = intern_key(('sqrtb', inner))
+                        self.pos.add(sb)
+                        self.nz.add(sb)
+                        tgt[sb] = tgt.get(sb, 0) + abs(q.numerator)
+                else:
+                    # exp(q log n) = n^q
+                    sb = intern_key(('sqrtc', Fraction(inner)))
+                    self.pos.add(sb)
+                    self.nz.add(sb)
+                    tgt[sb] = tgt.get(sb, 0) + abs(q.numerator) * (
+                        2 if q.denominator == 1 else 1)
                 continue
             if q.denominator == 1:
                 put(intern_key(('expm', k)), int(q))
@@ -351,9 +377,17 @@ class Canon(object):
                     return None
         if c <= 0:
             return None
-        for b in list(n) + list(d):
-            if b not in self.pos:
-                return None
+        for dd in (n, d):
+            for b, e in list(dd.items()):
+                if b not in self.pos:
+                    if e % 2 == 0 and b in self.nz:
+                        ab = intern_key(('abs', b))
+                        self.pos.add(ab)
+                        self.nz.add(ab)
+                        del dd[b]
+                        dd[ab] = dd.get(ab, 0) + e
+                    else:
+                        return None
         out = self._log_const(c)
         for b, e in n.items():
             out = out.plus(self._log_base(b).scaled(Fraction(e)))
@@ -477,6 +511,47 @@ class Canon(object):
         b = intern_key(('sum', ln.key()))
         self._sumlin[b] = ln
         return c0, num, den, b
+
+    def expand_numerators(self, d, rounds=4):
+        """expand every sum that occurs as a numerator factor"""
+        for _ in range(rounds):
+            changed = False
+            out = Lin(d.const)
+            for k, v in d.coef.items():
+                n, dd = _parts(k)
+                sums = [(b, e) for b, e in n.items()
+                        if _KIND.get(b) == 'sum' and b in self._sumlin
+                        and e <= 4]
+                if not sums:
+                    out = out.plus(Lin(Fraction(0), {k: v}))
+                    continue
+                changed = True
+                for b, e in sums:
+                    del n[b]
+                t = self.term(n, dd, v)
+                for b, e in sums:
+                    for _i in range(e):
+                        t = self._mul_expand(t, self._sumlin[b])
+                out = out.plus(t)
+            d = out
+            if not changed or len(d.coef) > 600:
+                break
+        return d
+
+    def residual_is_zero(self, d):
+        if not d.coef and d.const == 0:
+            return True
+        for _ in range(3):
+            d = self.expand_numerators(d)
+            if not d.coef and d.const == 0:
+                return True
+            d2 = self.clear_denominators(d)
+            if not d2.coef and d2.const == 0:
+                return True
+            if d2.key() == d.key():
+                return False
+            d = d2
+        return False
 
     def clear_denominators(self, d, rounds=6):
         """d == 0  <=>  d * S^k == 0 for a non-zero sum S: multiply the
@@ -700,6 +775,8 @@ def eval_key(k, env, fns, memo=None):
         r = math.sqrt(float(key[1]))
     elif tag == 'sqrtb':
         r = math.sqrt(ev(key[1]))
+    elif tag == 'abs':
+        r = abs(ev(key[1]))
     elif tag == 'expc':
         r = math.exp(float(key[1]))
     elif tag == 'expm':
